@@ -95,7 +95,7 @@ Section Exact.
   (* --- deprecation --- *)
   Lemma default_reason_base : default_reason DDS = Some default_reason_text.
   Proof.
-    destruct (gen_ok_parts S GOK) as [_ [_ [_ [_ [_ [B _]]]]]].
+    destruct (gen_ok_parts S GOK) as [_ [_ [_ [_ [_ B]]]]].
     unfold default_reason, dds. rewrite flat_map_app.
     rewrite (flat_map_nil _ (s_directives S)); [reflexivity|].
     intros d I. destruct (bytes_eqb (dd_name d) #"deprecated") eqn:E; auto.
@@ -341,7 +341,7 @@ Section Exact.
     assert (Dirs : assoc_b dd_name id_name (directive_matches_b W) (s_directives W)
                      (map (GD S) (s_directives S) ++ map (GD S) base_public_directives) = true).
     { cbn [s_directives with_base]. rewrite <- map_app. apply Forall2_assoc_b.
-      - rewrite map_app. destruct (gen_ok_parts S GOK) as [_ [_ [_ [_ [_ [B _]]]]]].
+      - rewrite map_app. destruct (gen_ok_parts S GOK) as [_ [_ [_ [_ [_ B]]]]].
         apply NoDup_app_intro; auto.
         + apply nodup_b_NoDup. reflexivity.
         + intros n I1 I2. apply in_map_iff in I1. destruct I1 as [d [E I]]. subst n. eapply B; eauto.
